@@ -56,6 +56,7 @@ type rcfg struct {
 	coord      string // ok | slowjoin | joinerr | rebalance | slowhb
 	nmsgs      int    // messages in the log
 	syncCommit bool
+	coordReal  bool   // group paths over real connections to the protocol-level broker (gbroker) instead of the mock coordinator
 	badCodec   bool   // the second message of the log carries an unknown compression codec
 	faultAt    string // coordinator method at which a fault is injected ("" = none)
 	faultNth   int    // on its n-th call (0 = every call)
@@ -67,6 +68,7 @@ type rscenario struct {
 	rec     *recorder
 	open    int32 // open connections (broker + coordinator)
 	br      *Broker
+	gb      *gbroker
 	r       *kafka.Reader
 	cg      *kafka.ConsumerGroup
 	nextC   int
@@ -93,7 +95,13 @@ func (s *rscenario) dial(ctx context.Context, network, addr string) (net.Conn, e
 		}
 		return nil, errors.New("fake: connection refused")
 	}
-	c, id := s.br.Dial()
+	var c net.Conn
+	var id int
+	if s.gb != nil {
+		c, id = s.gb.dial()
+	} else {
+		c, id = s.br.Dial()
+	}
 	atomic.AddInt32(&s.open, 1)
 	s.rec.add("bo/%d", id)
 	return &countedConn{Conn: c, id: id, sc: s}, nil
@@ -273,7 +281,11 @@ func newRScenario(cfg rcfg) *rscenario {
 			MinBytes: 1, MaxBytes: 1 << 20, MaxWait: 40 * time.Millisecond, ReadBatchTimeout: 300 * time.Millisecond,
 			ReadBackoffMin: time.Millisecond, ReadBackoffMax: 3 * time.Millisecond, MaxAttempts: 2, ReadLagInterval: -1})
 	case "group":
-		kafka.VerifSetGroupHandler(s.coord)
+		if cfg.coordReal {
+			s.gb = &gbroker{s: s}
+		} else {
+			kafka.VerifSetGroupHandler(s.coord)
+		}
 		ci := 20 * time.Millisecond
 		if cfg.syncCommit {
 			ci = 0
@@ -285,10 +297,14 @@ func newRScenario(cfg rcfg) *rscenario {
 			JoinGroupBackoff: 10 * time.Millisecond, CommitInterval: ci, StartOffset: kafka.FirstOffset})
 		kafka.VerifSetGroupHandler(nil)
 	case "cg":
-		kafka.VerifSetGroupHandler(s.coord)
+		if cfg.coordReal {
+			s.gb = &gbroker{s: s}
+		} else {
+			kafka.VerifSetGroupHandler(s.coord)
+		}
 		cg, err := kafka.NewConsumerGroup(kafka.ConsumerGroupConfig{ID: "g", Brokers: []string{"fake:9092"}, Topics: []string{"t"}, Dialer: dialer,
 			HeartbeatInterval: 15 * time.Millisecond, SessionTimeout: 300 * time.Millisecond, RebalanceTimeout: 300 * time.Millisecond,
-			JoinGroupBackoff: 10 * time.Millisecond})
+			JoinGroupBackoff: 10 * time.Millisecond, Timeout: 150 * time.Millisecond})
 		kafka.VerifSetGroupHandler(nil)
 		if err != nil {
 			panic(err)
@@ -358,10 +374,25 @@ func (s *rscenario) call(kind string) int {
 		}
 		if res == "" {
 			res = rclass(err)
+			if res == "eof" && kind != "fetch" && kind != "read" {
+				res = "err" // a broken coordinator connection surfaces io.EOF through Next / CommitMessages
+			}
+			if res == "eof" && !s.closingFlag() {
+				// Close has not been called: the io.EOF of a broken coordinator connection, handed through r.runError
+				// (the fetch path rewrites io.EOF to io.ErrUnexpectedEOF, the group-loop path does not) — an error, not
+				// the "reader closed" answer
+				res = "err"
+			}
 		}
 		s.rec.add("rr/%d/%s", c, res)
 	}()
 	return c
+}
+
+func (s *rscenario) closingFlag() bool {
+	s.mu.Lock()
+	defer s.mu.Unlock()
+	return s.closing
 }
 
 func (s *rscenario) wait(c int, d time.Duration) bool {
@@ -379,10 +410,13 @@ func (s *rscenario) cancelCall(c int) {
 }
 
 func (s *rscenario) closeBegin() {
+	s.mu.Lock()
 	if s.closing {
+		s.mu.Unlock()
 		return
 	}
 	s.closing = true
+	s.mu.Unlock()
 	s.closed = make(chan struct{})
 	go func() {
 		s.rec.add("xb")
@@ -532,6 +566,45 @@ func readerScenario(kind int, r *rand.Rand) (string, string) {
 			s.wait(ci, watchdog())
 		}
 		return s.finish(base, t0)
+	case 13: // group reader over real coordinator connections: a fault (error code or broken connection) at any step, Close
+		cfg := rcfg{mode: "group", broker: "ok", coord: "ok", coordReal: true, syncCommit: r.Intn(2) == 0}
+		if r.Intn(4) > 0 {
+			cfg.faultAt, cfg.faultNth, cfg.faultKind = pickStepReal(r), r.Intn(3), []int{25, 15, 16, 27, -1, -1}[r.Intn(6)]
+			if cfg.faultAt == "leaveGroup" {
+				cfg.faultNth = r.Intn(2) // there is one LeaveGroup per scenario
+			}
+		}
+		s := newRScenario(cfg)
+		c := s.call("fetch")
+		s.waitTok("gh/", 150*time.Millisecond)
+		jitter()
+		s.closeBegin()
+		<-waitOr(s.closed)
+		s.wait(c, watchdog())
+		c3 := s.call("fetch")
+		s.wait(c3, watchdog())
+		return s.finish(base, t0)
+	case 14: // ConsumerGroup over real connections, Timeout 150 ms: also a coordinator that stops answering at some step
+		cfg := rcfg{mode: "cg", coord: "ok", coordReal: true}
+		if r.Intn(4) > 0 {
+			cfg.faultAt, cfg.faultNth, cfg.faultKind = pickStepReal(r), r.Intn(3), []int{25, 15, 27, -1, -2, -2}[r.Intn(6)]
+			if cfg.faultAt == "leaveGroup" {
+				cfg.faultNth = r.Intn(2)
+			}
+			if cfg.faultKind == -2 && (cfg.faultAt == "joinGroup" || cfg.faultAt == "syncGroup") {
+				cfg.faultKind = -1 // their deadline adds the rebalance / session timeout: keep the scenario short
+			}
+		}
+		s := newRScenario(cfg)
+		c := s.call("next")
+		s.wait(c, 200*time.Millisecond)
+		jitter()
+		s.closeBegin()
+		<-waitOr(s.closed)
+		s.wait(c, watchdog())
+		c3 := s.call("next")
+		s.wait(c3, watchdog())
+		return s.finish(base, t0)
 	case 4, 5, 6, 7, 8, 10, 11: // group reader: running generation / slow join / join errors / rebalance / slow coordinator / faults
 		cfg := rcfg{mode: "group", broker: "ok", syncCommit: r.Intn(2) == 0, nmsgs: r.Intn(2) * 2}
 		switch kind {
@@ -624,6 +697,11 @@ func pickStep(r *rand.Rand) string {
 	return []string{"connect", "findCoordinator", "joinGroup", "syncGroup", "offsetFetch", "heartbeat", "offsetCommit", "readPartitions"}[r.Intn(8)]
 }
 
+// pickStepReal: a coordinator request (real connections: the dial itself is not scripted)
+func pickStepReal(r *rand.Rand) string {
+	return []string{"findCoordinator", "joinGroup", "syncGroup", "offsetFetch", "heartbeat", "leaveGroup", "leaveGroup"}[r.Intn(7)]
+}
+
 func waitOr(ch chan struct{}) chan struct{} {
 	out := make(chan struct{})
 	go func() {
@@ -643,7 +721,7 @@ func readerPart(seed int64) {
 	}
 	n := 0
 	for rep := 0; rep < reps; rep++ {
-		for kind := 0; kind < 13; kind++ {
+		for kind := 0; kind < 15; kind++ {
 			n++
 			if tooManyStuck() {
 				return
